@@ -843,7 +843,10 @@ class Process:
             raise convert_oserror(err, self.pid, self._name) from err
         else:
             for addr, perm, path, rss in raw:
-                path = convert_dos_path(path)
+                try:
+                    path = convert_dos_path(path)
+                except OSError as err:
+                    raise convert_oserror(err, self.pid, self._name) from err
                 addr = hex(addr)
                 yield (addr, perm, path, rss)
 
